@@ -49,6 +49,11 @@ class Col:
                 return self.scalar(t.args[0])  # 0 <= i < T
             if t.op == "neg":
                 return -self.scalar(t.args[0])
+            if t.op in ("py_ceil", "py_floor", "py_round", "py_int") and t.args:
+                # a Python-level count derived from other scalars (ceil(maturity / dt), ...): an uninterpreted function of its argument -
+                # it is NOT the grid length T read from the buffer, so identities that need T leave a residual
+                inner = self.scalar(t.args[0])
+                return sp.Function(t.op[3:].upper(), integer=True)(inner)
         raise ValueError(f"not a scalar: {t!r}")
 
     def has_time(self, t):
